@@ -233,7 +233,10 @@ impl<R: Read + Seek> Mp4Reader<R> {
     }
 
     pub fn duration(&self) -> Duration {
-        let millis = self.moov.mvhd.duration as u128 * 1000 / self.moov.mvhd.timescale as u128;
+        // a timescale of 0 is meaningless; report a zero duration rather than divide by it
+        let millis = (self.moov.mvhd.duration as u128 * 1000)
+            .checked_div(self.moov.mvhd.timescale as u128)
+            .unwrap_or(0);
         Duration::from_millis(u64::try_from(millis).unwrap_or(u64::MAX))
     }
 
